@@ -109,6 +109,15 @@ theorem parse_textChat (ext : Bool) (t rest : List UInt8) (h0 : 0 < t.length) (h
   have hn : ¬ (t.length = 4294967295 ∨ t.length = 4294967294 ∨ t.length = 4294967293) := by omega
   simp [parseNormal, normalBody, Reader.runFlat, enc32, byteAt, be32At, be32_enc _ h32, hn, h0, h1]
 
+/-- a TextChat header whose length is neither a command nor in 1..4095: only the 8 header bytes
+are consumed, the message is classified `textChatBad` (and the handler closes the connection) -/
+theorem parse_textChatBad (ext : Bool) (p1 p2 p3 : UInt8) (len : Nat) (rest : List UInt8)
+    (h32 : len < 4294967296)
+    (hc : ¬ (len = 4294967295 ∨ len = 4294967294 ∨ len = 4294967293))
+    (hb : ¬ (0 < len ∧ len < 4096)) :
+    (parseNormal ext).runFlat ([11, p1, p2, p3] ++ enc32 len ++ rest) = some (.textChatBad len, rest) := by
+  simp [parseNormal, normalBody, Reader.runFlat, enc32, byteAt, be32At, be32_enc _ h32, hc, hb]
+
 theorem parse_sds (ext : Bool) (b s rest : List UInt8) (hb : b.length = 7)
     (hs : s.length = (byteAt b 5).toNat * 16) :
     (parseNormal ext).runFlat (251 :: b ++ s ++ rest) = some (.setDesktopSize b s, rest) := by
@@ -233,6 +242,35 @@ theorem provideLoop_nodeliver (id flags : Nat) (is : List Nat) : ∀ (s : List U
     intro s
     simp only [provideLoop]
     (repeat' split) <;> simp_all
+
+/-- formats other than the text (bit 0) never reach a callback -/
+theorem provideLoop_notext (d : Bool) (id flags : Nat) (is : List Nat) (h0 : 0 ∉ is) :
+    ∀ (s : List UInt8), (provideLoop d id flags is s).2.2 = [] := by
+  induction is with
+  | nil => intro s; rfl
+  | cons i is ih =>
+    intro s
+    have hi : i ≠ 0 := fun h => h0 (by simp [h])
+    have := ih (fun h => h0 (by simp [h]))
+    simp only [provideLoop]
+    (repeat' split) <;> simp_all
+
+/-- the text record, read first, goes to the callback with exactly its bytes, once -/
+theorem provideLoop_text_first (id flags : Nat) (is : List Nat) (h0 : 0 ∉ is) (text tail : List UInt8)
+    (ht : flags.testBit 0 = true) (h1 : 0 < text.length) (h2 : text.length ≤ 1048576) :
+    (provideLoop true id flags (0 :: is) (enc32 text.length ++ text ++ tail)).2.2 =
+      [.cutUtf8 id text] := by
+  have h32 : text.length < 4294967296 := by omega
+  have hnt := provideLoop_notext true id flags is h0 tail
+  have hsz : ¬ (text.length > 1048576) := by omega
+  have hne : text.length ≠ 0 := by omega
+  have hsize : be32At (enc32 text.length ++ text ++ tail) 0 = text.length := by
+    simp [enc32, be32At, byteAt, be32_enc _ h32]
+  have hdrop : (enc32 text.length ++ text ++ tail).drop 4 = text ++ tail := by simp [enc32]
+  have hlen : ¬ ((enc32 text.length ++ text ++ tail).length < 4) := by simp [enc32]
+  simp only [provideLoop, ht, Bool.not_true, Bool.false_eq_true, if_false, hlen, hsize, hsz, hne, hdrop]
+  have hge : ¬ (text.length + tail.length < text.length) := by omega
+  simp [hnt, hge]
 
 theorem handleExtClip_id (inf : List UInt8 → Option (List UInt8)) (cfg : Cfg) (cl : Client)
     (p : List UInt8) : (handleExtClip inf cfg cl p).1.id = cl.id := by
